@@ -11,7 +11,8 @@ ID = 'C03'
 LEAN_MODULE = 'Proofs.C03'
 THEOREMS = ['Fsic.C03.' + n for n in [
     'type_order', 'promote_spec', 'lhs_variable_endogenous', 'classify_spec', 'classify_spec_false_at_witness',
-    'classify_rejects', 'combine_error_class', 'symbol_order', 'names_partition', 'lags_leads_spec',
+    'classify_rejects', 'rejection_class', 'accepted_iff', 'rejects_symbolError', 'rejects_parserError',
+    'identical_duplicates_accepted', 'combine_error_class', 'symbol_order', 'names_partition', 'lags_leads_spec',
     'explicit_replace', 'min_only_raise', 'default_range_feasible', 'default_range_enumerated',
     'default_range_is_solve_range']]
 RULE = ('grammar programs (gen_scripts.gen_program, multi-equation, named periods mixed with integer offsets, LHS '
